@@ -36,10 +36,11 @@ const c40DecoyID = 99
 var c40Keys = map[int]ci.PrivKey{} // 1..3 real keys, 99 the decoy
 var c40KeyBytes = map[int][]byte{}
 
-func c40InitKeys() {
-	if len(c40Keys) > 0 {
-		return
-	}
+var c40KeysOnce sync.Once
+
+func c40InitKeys() { c40KeysOnce.Do(c40InitKeysOnce) }
+
+func c40InitKeysOnce() {
 	r := rand.New(rand.NewSource(4040))
 	for _, id := range []int{1, 2, 3, c40DecoyID} {
 		k, _, err := ci.GenerateEd25519Key(r)
